@@ -26,6 +26,10 @@ SecNames == {"write_line", "clear", "overwrite"}
 IOSeqNames == {"write_line", "error", "write_raw", "error_line_raw", "clear", "overwrite"}
 AllNames == SectionMethods \cup IOMethods
 
+OnePlain == {"plain"}
+\* in the sequences the shape of a text is fixed by the position of the call (no further branching)
+ShapeAt(k) == <<"nl", "plain", "mid", "pad">>[(k % 4) + 1]
+
 HInit == Init /\ hist = <<>>
 BSpec == HInit /\ [][Next /\ UNCHANGED hist]_hvars
 
@@ -36,8 +40,8 @@ Configure(q, v) ==
   /\ UNCHANGED <<obj, seen, shut, next>>
 TNext == /\ Len(hist) < 2
          /\ IF hist = <<>> THEN \E q \in BOOLEAN, v \in Levels : Configure(q, v)
-            ELSE \E name \in AllNames, o \in DOMAIN outs, f \in FlagWords :
-                    (RoleOf(obj.kind) = "io" => o = 1) /\ Write(name, o, f)
+            ELSE \E name \in AllNames, o \in DOMAIN outs, f \in FlagWords, sh \in TextShapes :
+                    (RoleOf(obj.kind) = "io" => o = 1) /\ Write(name, o, f, sh)
          /\ hist' = Append(hist, last')
 TSpec == HInit /\ [][TNext]_hvars
 
@@ -46,7 +50,7 @@ HNext == /\ Len(hist) < Depth
          /\ \/ \E g \in Groups, q \in BOOLEAN : SetQuiet(g, q)
             \/ \E g \in Groups, v \in SeqLevels : SetVerbosity(g, v)
             \/ \E name \in SeqNames, o \in DOMAIN outs, f \in SeqFlags :
-                  (RoleOf(obj.kind) = "io" => o = 1) /\ Write(name, o, f)
+                  (RoleOf(obj.kind) = "io" => o = 1) /\ Write(name, o, f, ShapeAt(Len(hist)))
          /\ hist' = Append(hist, last')
 HSpec == HInit /\ [][HNext]_hvars
 
